@@ -226,7 +226,21 @@ func (p *Path) applySpec(in ssa.Instruction, site string, spec *FuncSpec, what s
 		// no heap effect, deterministic result
 	} else if spec.ModAll {
 		p.st.now = nn
-		p.havocAllExcept(spec)
+		// ghost locations the contract lists explicitly are not preserved
+		exc := map[string][]string{}
+		for i, m := range spec.Modifies {
+			ls, err := safeLocs(c, m)
+			if err != nil {
+				p.specError("modifies of "+what, Clause{Src: spec.ModSrc[i], File: spec.File, Line: spec.Line}, err)
+				continue
+			}
+			for _, l := range ls {
+				if !l.Region && !l.MapRow && l.Addr != "" {
+					exc[l.Heap] = append(exc[l.Heap], l.Addr)
+				}
+			}
+		}
+		p.havocAllExcept(spec, exc)
 	} else {
 		p.st.now = nn
 		heaps := map[string][]Loc{}
@@ -430,8 +444,15 @@ func specPkg(env *Env, spec *FuncSpec, what string) *types.Package {
 	} else if i := strings.LastIndex(w, "."); i >= 0 {
 		w = w[:i]
 	}
-	if sp, ok := env.pkgs[w]; ok {
-		return sp.Pkg
+	for w != "" {
+		if sp, ok := env.pkgs[w]; ok {
+			return sp.Pkg
+		}
+		i := strings.LastIndex(w, ".")
+		if i < 0 {
+			break
+		}
+		w = w[:i]
 	}
 	return nil
 }
@@ -446,7 +467,7 @@ func (p *Path) havocAll() {
 
 // havocAllExcept: arbitrary code ran (a handler, a task): every heap is havocked, except that locations the
 // contract lists under `attr preserves` keep their value.
-func (p *Path) havocAllExcept(spec *FuncSpec) {
+func (p *Path) havocAllExcept(spec *FuncSpec, exc map[string][]string) {
 	pre := p.st.clone()
 	now := p.st.now
 	// the callee cannot write this function's non-escaping locals, nor closure cells it was not handed
@@ -472,7 +493,7 @@ func (p *Path) havocAllExcept(spec *FuncSpec) {
 			keeps = append(keeps, keep{v.T, pt.Elem(), p.loadIn(&pre, v.T, pt.Elem(), false)})
 		}
 	}
-	p.st = State{epoch: p.fx.fresh("e"), epochNow: now, heaps: map[string]string{}, now: now, prev: &pre}
+	p.st = State{epoch: p.fx.fresh("e"), epochNow: now, heaps: map[string]string{}, now: now, prev: &pre, prevExcept: exc}
 	p.fx.wroteAll = true
 	p.envStep()
 	for _, k := range keeps {
